@@ -473,7 +473,7 @@ def writers(ctx, rng, xr, ws, d):
         one = ds.isel(time=[0], site=[0])[["efth"]]
         if "lat" in one.dims:
             return
-        v = np.array(one["efth"].values, dtype="float64")
+        v = np.array(one["efth"].transpose("time", "site", "freq", "dir").values, dtype="float64")      # (datasets come in any dimension order)
         v = np.where(np.isfinite(v), np.abs(v), 0.0) + 0.05
         v[..., 1:-1:2, :] = 0.0                                  # empty interior frequency bins
         lay = str(rng.choice(["freq_dir", "dir_freq", "lead_dir_freq", "view"]))
